@@ -135,6 +135,17 @@ func c17Slots(v interface{}, path string) []c17Slot {
 	return out
 }
 
+// c17Values drops the re-observation handles from a result list (they are not caller-owned values).
+func c17Values(res []interface{}) []interface{} {
+	var out []interface{}
+	for _, x := range res {
+		if _, ok := x.(c17Again); !ok {
+			out = append(out, x)
+		}
+	}
+	return out
+}
+
 // c17Render renders values with their Go types (deep), to detect any change.
 func c17Render(vs []interface{}) string {
 	var sb strings.Builder
@@ -150,6 +161,10 @@ type c17Profile struct {
 	Meta map[string]string `bson:"meta"`
 	Blob []byte            `bson:"blob"`
 }
+
+// c17Again is a re-observation through a handle the call returned (the same SingleResult, cursor or stream used
+// once more): it is evaluated before and after the caller's mutation like every other observation.
+type c17Again func() string
 
 type c17Call struct {
 	name string
@@ -403,7 +418,12 @@ func c17Calls() []c17Call {
 			Blob []byte   `bson:"blob"`
 		}
 		_ = cur.Decode(&p)
-		return []interface{}{&d, &p}
+		again := c17Again(func() string {
+			var d2 bson.D
+			err := cur.Decode(&d2)
+			return fmt.Sprintf("same cursor position again: %s %v", J(d2), err)
+		})
+		return []interface{}{&d, &p, again}
 	})
 	add("FindOne + Decode / DecodeBytes (projection)", func() []interface{} { return []interface{}{bD("_id", binID()), bD("a", i(1), "tags", i(1))} }, func(w *world.World, a []interface{}) []interface{} {
 		sr := coll(w).FindOne(w.Ctx, a[0], options.FindOne().SetProjection(a[1]))
@@ -412,7 +432,13 @@ func c17Calls() []c17Call {
 			panic(err)
 		}
 		raw, _ := sr.DecodeBytes()
-		return []interface{}{&d, []byte(raw)}
+		again := c17Again(func() string {
+			var d2 bson.D
+			err := sr.Decode(&d2)
+			r2, err2 := sr.DecodeBytes()
+			return fmt.Sprintf("same SingleResult again: %s %v %x %v", J(d2), err, []byte(r2), err2)
+		})
+		return []interface{}{&d, []byte(raw), again}
 	})
 	add("Distinct(values of document-valued and array fields)", func() []interface{} { return []interface{}{bD("n", bD("$lte", i(3)))} }, func(w *world.World, a []interface{}) []interface{} {
 		var out []interface{}
@@ -441,7 +467,6 @@ func c17Calls() []c17Call {
 		if err != nil {
 			panic(err)
 		}
-		defer s.Close(w.Ctx)
 		if _, err := coll(w).InsertOne(w.Ctx, a[0]); err != nil {
 			panic(err)
 		}
@@ -451,7 +476,12 @@ func c17Calls() []c17Call {
 		var ev bson.D
 		_ = s.Decode(&ev)
 		tok := s.ResumeToken()
-		return []interface{}{&ev, []byte(tok)}
+		again := c17Again(func() string {
+			var ev2 bson.D
+			err := s.Decode(&ev2)
+			return fmt.Sprintf("same stream event again: %s %v token %x", J(normEventD(ev2)), err, []byte(s.ResumeToken()))
+		})
+		return []interface{}{&ev, []byte(tok), again}
 	})
 	add("GridFS upload with metadata + file listing", func() []interface{} {
 		return []interface{}{bD("owner", bD("tags", bson.A{"m"})), []byte{1, 2, 3, 4, 5}}
@@ -477,6 +507,9 @@ func c17Calls() []c17Call {
 	})
 	return cs
 }
+
+// normEventD drops nothing: the event of one stream is compared with itself.
+func normEventD(d bson.D) bson.D { return d }
 
 func stripID(d bson.D) bson.D {
 	var out bson.D
@@ -511,7 +544,7 @@ func init() {
 				r.Violation("argument-modified:"+strings.Fields(cl.name)[0], cl.name+": the call modified its argument:\n  before "+short(before, 500)+"\n  after  "+short(after, 500), map[string]interface{}{"call": cl.name})
 			}
 			argPreserved++
-			cnt[ci] = counts{len(c17Slots(args, "args")), len(c17Slots(res, "results"))}
+			cnt[ci] = counts{len(c17Slots(args, "args")), len(c17Slots(c17Values(res), "results"))}
 			w.Close()
 		}
 		var jobs []job
@@ -531,11 +564,20 @@ func init() {
 			c17Setup(w)
 			args := cl.args()
 			res := cl.do(w, args)
-			obs1 := c17Observe(w)
+			observe := func() string {
+				o := c17Observe(w)
+				for _, x := range res {
+					if again, ok := x.(c17Again); ok {
+						o += again() + "\n"
+					}
+				}
+				return o
+			}
+			obs1 := observe()
 			var slots []c17Slot
 			kind := "argument"
 			if j.result {
-				slots, kind = c17Slots(res, "results"), "result"
+				slots, kind = c17Slots(c17Values(res), "results"), "result"
 			} else {
 				slots = c17Slots(args, "args")
 			}
@@ -545,7 +587,7 @@ func init() {
 			}
 			sl := slots[j.slot]
 			sl.mutate()
-			obs2 := c17Observe(w)
+			obs2 := observe()
 			rep := map[string]interface{}{"call": cl.name, "mutated": kind + " slot " + sl.path}
 			if obs1 != obs2 {
 				r.Violation("aliasing:"+kind+":"+c17Class(cl.name, sl.path), fmt.Sprintf("%s: after the call the caller overwrote %s slot %s; the database changed:\n%s", cl.name, kind, sl.path, firstDiff(obs1, obs2)), rep)
